@@ -273,6 +273,24 @@ with `&self.limbs`, the limb list itself).  Subset extensions used there:
       outcomes of the test `i == 0`: `| 0 => <body with i = 0>; E` and `| n + 1 => <body with i = n + 1>; <fn>_loop<j> .. n`;
       the function's value is the call with the counter's initial value (`LIMBS - 1`, truncated: for `LIMBS = 0` Rust's
       `usize` subtraction overflows — a panic — and the translation reads the default limb 0 at index 0).
+Eleventh unit group (round 4, G18; written to lean/CB/Gen/SafeGcdLimbs.lean, imports CB.Gen.SafeGcd): the LIMB arithmetic of
+safegcd (C10) — `impl<const LIMBS: usize> UnsatInt<LIMBS> { add, mul, neg, shr, eq, is_negative, lowest, select }` (namespace
+CB.Gen.SafeGcdLimbs.UnsatInt) and the free functions `fg`, `de` (namespace CB.Gen.SafeGcdLimbs) of src/modular/safegcd.rs,
+64-bit configuration.  Subset extensions (unit option `unsat`, so the earlier generated files do not change):
+  `UnsatInt<LIMBS>` (`Self` inside `impl UnsatInt`) is a NEWTYPE over `[u64; LIMBS]`: the list of its 62-bit words
+  (`List (BitVec 64)`, little endian, `LIMBS : Nat` explicit); `x.0` is that list, `x.0[i]` a `u64` (`x.getD i 0#64`: total, the
+  default is never taken inside `while i < LIMBS`), `x.0[i] = e` is `x.set i e`; methods on an `UnsatInt` value and
+  `UnsatInt::f(..)` resolve to the `unsat` unit (also from the free-function unit that follows it in the same file);
+  the associated constants are READ from the source on every run: `LIMB_BITS` (`pub const LIMB_BITS: usize = <n>;`, used as a
+  shift amount / index), `MASK` (`u64::MAX >> (<k> - Self::LIMB_BITS)`, emitted as `((~~~0#64) >>> <k - n>)`), `ZERO`
+  (`Self([0; LIMBS])`: `List.replicate LIMBS 0#64`), also through a turbofish (`UnsatInt::<LIMBS>::MASK`); a constant whose
+  defining text has another form makes every function that mentions it `kept_last`;
+  `let (a, mut b, c) = if cond { (x, y, z) } else { (x, 0, 0) };`: an `if` EXPRESSION whose branches are tuples — the untyped
+  literals of one branch take the component types of the other branch (the one without untyped literals is typed first);
+  a `let` that shadows a PARAMETER (`let (other, ..) = ..;` in `mul`) is a fresh Lean name, like every re-binding;
+  `-x as u64` on an `i64` (unary minus binds tighter than `as`; the pattern is kept), `x as u128` of an `i64` sign-extends;
+  a `while i < LIMBS - 1` bound (truncated `Nat` subtraction: for `LIMBS = 0` Rust's `usize` subtraction panics, the
+  translation runs zero rounds) — the fourth `while` form, unchanged.
 """
 import os, re, sys, json
 
@@ -808,6 +826,8 @@ class P:
         arr = place[1]
         if arr[0] == 'nfield' and arr[2] == 'limbs':
             arr = arr[1]
+        if OPTS.get('unsat') and arr[0] == 'field' and arr[2] == 0 and arr[1][0] == 'var' and not word:
+            arr = arr[1]      # (G18) `x.0[i] = e` on an `UnsatInt` (a newtype over `[u64; LIMBS]`)
         if arr[0] != 'var':
             self.i = save
             return False
@@ -2003,6 +2023,17 @@ class Gen:
                     # a fixed array (tuple): `t[K] = e` re-binds `t` to the tuple with component K replaced
                     e = rhs if op == '=' else ('bin', op[:-1], ('index', ('var', name), idx), rhs)
                     self.set_component(name, idx, e, None, env, lines)
+                    continue
+                if name in env and env[name][1] == 'unsat':
+                    # (G18) `x.0[i] = e` / `x.0[i] op= e` on an `UnsatInt`: a new word list with position `i` replaced
+                    e = rhs if op == '=' else ('bin', op[:-1], ('index', ('field', ('var', name), 0), idx), rhs)
+                    ix, tix = self.ex(idx, env, 'nat')
+                    if tix != 'nat':
+                        raise Unsupported('index of type ' + str(tix))
+                    t, ty = self.ex(e, env, 64)
+                    if ty != 64:
+                        raise Unsupported('array element of type ' + str(ty))
+                    self.bind(name, f'{atom(env[name][0])}.set {atom(ix)} {atom(t)}', 'unsat', env, lines)
                     continue
                 if name not in env or env[name][1] != 'uint':
                     raise Unsupported('indexed assignment to ' + name)
@@ -3236,6 +3267,113 @@ def _gen_body(self, body, env, rty, outs=None):
 Gen.ex, Gen.body = _gen_ex2, _gen_body
 
 
+# ---- round 4, G18: `UnsatInt<LIMBS>` (src/modular/safegcd.rs) — a newtype over `[u64; LIMBS]`, the list of its 62-bit words
+
+# `UnsatInt::LIMB_BITS` / `UnsatInt::MASK` as read from the source being translated (unit option `unsat`): name -> int / lean text
+UNSAT_CONSTS = {}
+
+_ty_of_g18, _lean_ty_g18 = ty_of, lean_ty
+
+
+def ty_of(t, self_ty):
+    t0 = t.strip()
+    if OPTS.get('unsat') and (re.match(r'UnsatInt\s*<\s*LIMBS\s*>$', t0) or (t0 == 'Self' and self_ty == 'UnsatInt')):
+        return 'unsat'       # an `UnsatInt<LIMBS>`: the list of its 62-bit words (each a `u64`), little endian
+    return _ty_of_g18(t, self_ty)
+
+
+def lean_ty(t):
+    if t == 'unsat':
+        return 'List (BitVec 64)'
+    if isinstance(t, tuple):
+        return ' × '.join((f'({lean_ty(x)})' if isinstance(x, tuple) else lean_ty(x)) for x in t)
+    return _lean_ty_g18(t)
+
+
+def read_unsat_consts(src):
+    """`pub const LIMB_BITS: usize = 62;` and `pub const MASK: u64 = u64::MAX >> (64 - Self::LIMB_BITS);` of `impl UnsatInt`"""
+    UNSAT_CONSTS.clear()
+    m = re.search(r'\bconst\s+LIMB_BITS\s*:\s*usize\s*=\s*(\d+)\s*;', src)
+    if m and 0 < int(m.group(1)) < 64:
+        UNSAT_CONSTS['LIMB_BITS'] = int(m.group(1))
+        m2 = re.search(r'\bconst\s+MASK\s*:\s*u64\s*=\s*u64::MAX\s*>>\s*\(\s*(\d+)\s*-\s*Self::LIMB_BITS\s*\)\s*;', src)
+        if m2 and 0 <= int(m2.group(1)) - int(m.group(1)) < 64:
+            UNSAT_CONSTS['MASK'] = f'((~~~0#64) >>> {int(m2.group(1)) - int(m.group(1))})'
+    if re.search(r'\bconst\s+ZERO\s*:\s*Self\s*=\s*Self\(\s*\[\s*0\s*;\s*LIMBS\s*\]\s*\)\s*;', src):
+        UNSAT_CONSTS['ZERO'] = True
+
+
+_ex_g18, _lookup_g18, _const_g18 = Gen.ex, Gen.lookup, Gen.const
+
+
+def _unsat_path(p):
+    return len(p) == 2 and p[0] in ('Self', 'UnsatInt') and p[1] in ('LIMB_BITS', 'MASK', 'ZERO')
+
+
+def _g18_const(self, e):
+    if OPTS.get('unsat') and e[0] == 'path' and _unsat_path(e[1]) and e[1][1] == 'LIMB_BITS' and (e[1][0] != 'Self' or self.self_ty == 'UnsatInt'):
+        return UNSAT_CONSTS.get('LIMB_BITS')
+    return _const_g18(self, e)
+
+
+def _g18_ex(self, e, env, want=None):
+    if not OPTS.get('unsat'):
+        return _ex_g18(self, e, env, want)
+    k = e[0]
+    if k == 'path' and _unsat_path(e[1]) and (e[1][0] != 'Self' or self.self_ty == 'UnsatInt'):
+        if len(e) > 2 and e[2] and e[2] != [self.generic]:
+            raise Unsupported('turbofish ' + '::'.join(e[1]))
+        c = e[1][1]
+        if c not in UNSAT_CONSTS:
+            raise Unsupported(f'constant UnsatInt::{c} changed in the source')
+        if c == 'MASK':
+            return UNSAT_CONSTS['MASK'], 64
+        if c == 'LIMB_BITS':
+            return (str(UNSAT_CONSTS[c]), 'nat') if want == 'nat' else (f'{UNSAT_CONSTS[c]}#{want if isinstance(want, int) else 64}', want if isinstance(want, int) else 64)
+        if not self.generic or env.get(self.generic, (None, None))[1] != 'nat':
+            raise Unsupported('UnsatInt::ZERO outside a generic unit')
+        return f'(List.replicate {env[self.generic][0]} 0#64)', 'unsat'
+    if k == 'field' and e[2] == 0:
+        t, ty = self.ex(e[1], env)
+        if ty == 'unsat':
+            return t, 'words'          # `x.0`: the `[u64; LIMBS]` inside, the same list (`x.0[i]` is a `u64`)
+    if k == 'method':
+        r, tr = self.ex(e[2], env)
+        if tr == 'unsat':
+            return self.call(e[1], [e[2]] + e[3], env, 'unsat')
+    if k == 'call' and len(e[1]) == 2 and e[1][0] == 'UnsatInt':
+        return self.call(e[1][1], e[2], env, 'unsat')
+    if k == 'ifexpr' and want is None:
+        # `let (a, b, c) = if c { (x, y, z) } else { (x, 0, 0) };`: the untyped literals of one branch take the types of the other
+        try:
+            return _ex_g18(self, e, env, want)
+        except Unsupported as ex:
+            if 'untyped literal' not in str(ex):
+                raise
+        for stmts, fin in e[2:]:
+            if stmts:
+                continue
+            try:
+                _, ty = self.ex(fin, dict(env))
+            except Unsupported:
+                continue
+            return _ex_g18(self, e, env, ty)
+        raise Unsupported('untyped literal')
+    return _ex_g18(self, e, env, want)
+
+
+def _g18_lookup(self, name, where):
+    if where == 'unsat':
+        if self.self_ty == 'UnsatInt':
+            return (self.ns, self.sigs[name]) if name in self.sigs else (None, None)
+        c = self.ext.get('unsat')
+        return (c[0], c[1].get(name)) if c else (None, None)
+    return _lookup_g18(self, name, where)
+
+
+Gen.ex, Gen.lookup, Gen.const = _g18_ex, _g18_lookup, _g18_const
+
+
 def impl_blocks(src, self_ty):
     """the bodies of all inherent impl blocks `impl[<..>] Ty[<..>] {` of a file, concatenated"""
     out = []
@@ -3488,6 +3626,15 @@ FILES = [
                    'bits_vartime', 'leading_zeros', 'leading_zeros_vartime', 'trailing_zeros', 'trailing_zeros_vartime',
                    'trailing_ones', 'trailing_ones_vartime', 'set_bit']),
     ]),
+    # (G18) the LIMB arithmetic of safegcd: `impl UnsatInt<LIMBS>` (lists of 62-bit words) and `fg`, `de` composed of it
+    ('SafeGcdLimbs.lean', ['CB.Gen.SafeGcd', None, 'set_option linter.unusedVariables false'], [
+        dict(key='unsat', rel=['src/modular/safegcd.rs'], ns='CB.Gen.SafeGcdLimbs.UnsatInt', self_ty='UnsatInt', generic='LIMBS',
+             unsat=True, desc='impl<const LIMBS: usize> UnsatInt<LIMBS>: add, mul(i64), neg, shr, eq, is_negative, lowest, select',
+             want=['add', 'mul', 'neg', 'shr', 'eq', 'is_negative', 'lowest', 'select']),
+        dict(key='safegcd_limbs', rel='src/modular/safegcd.rs', ns='CB.Gen.SafeGcdLimbs', self_ty=None, generic='LIMBS',
+             unsat=True, free_generic=True, skip_mods=['verif'], defer_lets=True,
+             desc='fg, de: the matrix applied to (f, g) and to (d, e) modulo the modulus', want=['fg', 'de']),
+    ]),
 ]
 
 AUX = re.compile(r'\w+_loop\d+$')
@@ -3585,6 +3732,13 @@ def main():
                 if u.get(opt):
                     ext[opt] = u[opt]
             OPTS.update({k: u[k] for k in ('usize_nat',) if u.get(k)})
+            OPTS.update({k: u[k] for k in ('unsat',) if u.get(k)})      # (G18) `UnsatInt<LIMBS>` values
+            ext['unsat'] = reg.get('unsat')
+            if u.get('unsat'):
+                try:
+                    read_unsat_consts(impl_blocks(open(path[0] if isinstance(path, list) else path).read(), 'UnsatInt'))
+                except (Unsupported, OSError):
+                    UNSAT_CONSTS.clear()
             try:
                 order, out, failed, sigs = translate_file(path, ns, self_ty, u.get('want'), u.get('private', False), ext, u.get('cut'))
             except (Unsupported, OSError) as ex:
